@@ -1,10 +1,27 @@
 #include "vqt.h"
 
 #include <algorithm>
+#include <unistd.h>
 
 namespace vqt {
 
 Globals &G() { static Globals g; return g; }
+
+static std::vector<std::pair<uintptr_t, uintptr_t>> &modelRanges() { static std::vector<std::pair<uintptr_t, uintptr_t>> r; return r; }
+static void dumpModelRanges();
+void registerModelRange(const void *p, size_t n)
+{
+    if (!vs::atFinish) vs::atFinish = dumpModelRanges;     // set here, at run time: static initialisation order between this file and vsched.cpp is unspecified
+    modelRanges().push_back({ (uintptr_t)p, (uintptr_t)p + n });
+}
+static bool s_terminatedAThread = false;
+static void dumpModelRanges()
+{
+    const char *dir = getenv("VQT_RANGE_DIR");
+    if (!dir) return;
+    char path[512]; snprintf(path, sizeof path, "%s/ranges.%d", dir, (int)getpid());
+    if (FILE *f = fopen(path, "w")) { if (s_terminatedAThread) fprintf(f, "TERMINATE\n"); for (auto &r : modelRanges()) fprintf(f, "%lx %lx\n", (unsigned long)r.first, (unsigned long)r.second); fclose(f); }
+}
 
 static std::set<VThread *> &threads() { static std::set<VThread *> s; return s; }
 static thread_local VThread *t_cur = nullptr;
@@ -25,11 +42,12 @@ VThread *currentThreadObject()
     return t_cur;
 }
 void setCurrentThreadObject(VThread *t) { t_cur = t; }
-void yield(const char *tag) { vs::point(tag); }
+void yield(const char *tag) { vs::point(tag, nullptr, false, false, /* longOp: a handler of arbitrary duration */ true); }
 bool alive(const VObject *o) { return o && G().live.count(o); }
 
 VObject::VObject()
 {
+    VQT_MODEL(this, sizeof(VObject));
     G().live.insert(this);
     // an object lives in the thread that creates it (nullptr = the main thread)
     m_affinity = (t_adopting || !vs::active() || vs::self() == 0) ? nullptr : currentThreadObject();
@@ -42,7 +60,7 @@ VObject::~VObject()
     // QObject's destructor removes the events still posted to it
     for (VThread *t : threads()) {
         for (auto it = t->queue.begin(); it != t->queue.end();) {
-            if (it->receiver == this) { delete it->ev; it = t->queue.erase(it); } else ++it;
+            if (it->receiver == this) { VQT_ACQ(&t->queue); delete it->ev; it = t->queue.erase(it); } else ++it;   // Qt removes them under the post-event-list mutex
         }
     }
 }
@@ -53,6 +71,7 @@ void VObject::deleteLater()
     m_deleteLater = true;
     if (vs::active()) vs::point("post");
     Posted p { this, nullptr, nullptr, true };
+    VQT_REL(&thread()->queue);
     thread()->queue.push_back(p);
 }
 bool VObject::disconnect(VObject *, std::nullptr_t, VObject *context, std::nullptr_t) { return context ? context->disconnect(context) : false; }
@@ -65,13 +84,14 @@ bool VObject::disconnect(VObject *context)
     return true;
 }
 
-VThread::VThread() { threads().insert(this); }
+VThread::VThread() { VQT_MODEL(this, sizeof(VThread)); threads().insert(this); }
 VThread::~VThread()
 {
     if (vs::active() && m_started && m_running && !m_finished)
         vs::violation("touches-destroyed-object", "a QThread object is destroyed while its thread is still running");
     threads().erase(this);
     if (G().lastStarted == this) G().lastStarted = nullptr;
+    if (!queue.empty()) VQT_ACQ(&queue);
     for (auto &p : queue) delete p.ev;
 }
 
@@ -87,13 +107,16 @@ void VThread::start()
 void VThread::quit()
 {
     vs::point("thread-quit");
+    VQT_REL(&m_exit);
     m_exit = true;                       // R3
 }
 bool VThread::wait(unsigned long ms)
 {
-    if (!m_started || m_finished) return true;
+    if (!m_started) return true;
+    if (m_finished) { VQT_ACQ(this); return true; }
     if (vs::active() && vs::self() == m_tid) return false; // "Thread tried to wait on itself"
     bool to = vs::point("thread-wait", [this] { return m_finished; }, false, ms != ULONG_MAX); // R6
+    if (m_finished) VQT_ACQ(this);
     return m_finished || !to;
 }
 void VThread::terminate()
@@ -101,6 +124,7 @@ void VThread::terminate()
     vs::point("thread-terminate");
     if (!m_running || m_finished) return;
     if (inHandler) vs::observe("terminated-in-handler");
+    s_terminatedAThread = true;          // a killed thread cannot announce any ordering: such executions are left out of the race pass
     vs::markTerminated(m_tid);           // R11: the thread ends where it is
     m_running = false;
     emitFinished();
@@ -131,11 +155,13 @@ int VThread::exec()
     if (!m_exit) {                       // R3: quit() between start() and exec() makes exec() return at once
         for (;;) {
             vs::point("loop-batch", [this] { return !queue.empty() || m_exit; }); // idle: blocked
+            if (m_exit) VQT_ACQ(&m_exit);
             if (m_exit && (!G().glibDispatcher || queue.empty())) break;          // R2'
             for (size_t n = queue.size(); n > 0 && !queue.empty(); n--) {         // R2: only what was queued when the batch began
                 Posted p = queue.front();
                 queue.pop_front();
                 vs::point("loop-deliver");
+                VQT_ACQ(&queue);
                 deliver(this, p);
             }
             if (m_exit) break;           // R2: exit flag looked at between batches
@@ -154,6 +180,7 @@ void VThread::threadBody()
     for (auto it = queue.begin(); it != queue.end();) {
         if (it->deferredDelete) { Posted p = *it; it = queue.erase(it); if (alive(p.receiver)) delete p.receiver; it = queue.begin(); } else ++it;
     }
+    VQT_REL(this);                       // everything the thread did happens-before a successful wait()
     m_finished = true;
 }
 void VThread::emitFinished()
@@ -164,7 +191,7 @@ void VThread::emitFinished()
 
 VCoreApp *VCoreApp::self = nullptr;
 bool VCoreApp::everCreated = false;
-VCoreApp::VCoreApp() { self = this; everCreated = true; }
+VCoreApp::VCoreApp() { VQT_MODEL(this, sizeof(VCoreApp)); self = this; everCreated = true; }
 VCoreApp::~VCoreApp() { self = nullptr; }
 
 void VCoreApp::postEvent(VObject *receiver, QEvent *ev, int)
@@ -177,10 +204,12 @@ void VCoreApp::postEvent(VObject *receiver, QEvent *ev, int)
         return;
     }
     VThread *t = receiver->thread();
+    VQT_REL(&t->queue);
     t->queue.push_back({ receiver, ev, nullptr }); // R1: FIFO at equal priority (the library posts at the default priority only)
 }
 void postCall(VThread *target, VObject *ctx, std::function<void()> f)
 {
+    VQT_REL(&target->queue);
     target->queue.push_back({ ctx, nullptr, std::move(f) });
 }
 void VCoreApp::quit()
@@ -198,6 +227,7 @@ static void mainBatch(bool deferredDeletes)
         m->queue.pop_front();
         if (p.deferredDelete && !deferredDeletes) { keep.push_back(p); continue; }
         vs::point("main-deliver");
+        VQT_ACQ(&m->queue);
         deliver(m, p);
     }
     for (auto it = keep.rbegin(); it != keep.rend(); ++it) m->queue.push_front(*it);
@@ -217,6 +247,7 @@ void VCoreApp::sendPostedEvents(VObject *receiver, int)
         t->queue.pop_front();
         if (p.deferredDelete || (receiver && p.receiver != receiver)) { t->queue.push_back(p); continue; }
         vs::point("send-posted");
+        VQT_ACQ(&t->queue);
         deliver(t, p);
     }
 }
@@ -225,7 +256,7 @@ void VCoreApp::removePostedEvents(VObject *receiver, int)
     vs::point("remove-posted");
     for (VThread *t : threads())
         for (auto it = t->queue.begin(); it != t->queue.end();) {
-            if ((!receiver || it->receiver == receiver) && !it->deferredDelete) { delete it->ev; it = t->queue.erase(it); } else ++it;
+            if ((!receiver || it->receiver == receiver) && !it->deferredDelete) { VQT_ACQ(&t->queue); delete it->ev; it = t->queue.erase(it); } else ++it;
         }
 }
 int VCoreApp::exec()
